@@ -101,6 +101,24 @@ def s5():
                   "type T: U\ntype U: T\n", "class A: B\ntype B: A\n", "def f(f: Int) -> Int => f(f)\n", "def x := x\n", "def x: Int := x + 1\n", "def f() -> Int => f()\nf()\n"]
     for d in degenerate:
         yield "degenerate", d
+    # user classes NAMED like a class of the default context (built-in or stub) with a parent that is one of them too, alone and next to
+    # 0-6 other user classes (which of two same-named classes wins depends on how many there are), also generic shapes
+    builtin = ["Int", "Float", "Complex", "Str", "Bool", "Exception", "List", "Set", "Range", "Any", "None", "Collection", "Generic", "str_iterator", "Tuple", "Callable", "object"]
+    filler = "".join("class Fill%d(def a%d: Int)\n    def m%d(self) -> Int => self.a%d\n" % (i, i, i, i) for i in range(6))
+    for name in builtin[:11]:
+        for parent in builtin:
+            if name == parent:
+                continue
+            for nfill, use in ((0, ""), (4, ""), (6, ""), (6, "def u: %s := %s()\n" % (name, name))):
+                yield "builtin-names", "".join(filler.split("class ")[k] and "class " + filler.split("class ")[k] for k in range(1, nfill + 1)) + "class %s: %s\n" % (name, parent) + use
+    for k in (2, 5, 10, 20):
+        tt = ", ".join(["Int"] * k)
+        yield "wide-tuples", "def f(t: (%s)) =>\n    print(t)\n    print(-2)\n" % tt
+        yield "wide-tuples", "def t: (%s) := (%s)\nprint(t)\ndef u := -1\nprint(u)\n" % (tt, ", ".join(["1"] * k))
+        yield "wide-tuples", "def f(t: (%s)) -> Int =>\n    def (%s) := t\n    x0\n" % (tt, ", ".join("x%d" % j for j in range(k)))
+    for src in ["class A[T]: T\nclass B: A[B]\n", "class A[T]: T\n", "class A[T]: A[T]\n", "class A[T]: List[A[T]]\nclass B: A[Int]\n", "class A[T: A]\n", "class A[T]\nclass B: A[B]\ndef b := B()\n",
+                "class A[T]: T\nclass B: A[B]\ndef b := B()\n", "class A[T]\ndef a: A[A[A[Int]]] := A()\n", "type A[T]: T\nclass B: A[B]\n"]:
+        yield "generic-cycles", src
 
 
 def s6():
